@@ -250,9 +250,13 @@ def check_result(case, files, markers, on, off, viol, rep):
         marker_lines = {}
         for i, l in enumerate(plain_on.split("\n")):
             parts = l.split()
-            if len(parts) >= 2 and parts[0] in ("int", "pushint") and parts[1].isdigit() and int(parts[1]) in markers and \
-                    (len(parts) == 2 or parts[2] == "//"):
-                marker_lines.setdefault(int(parts[1]), []).append(i)
+            val = None
+            if len(parts) >= 2 and parts[0] in ("int", "pushint") and parts[1].isdigit() and (len(parts) == 2 or parts[2] == "//"):
+                val = int(parts[1])
+            elif parts and parts[0].startswith("intc") and "//" in parts and parts[-1].isdigit():
+                val = int(parts[-1])      # a constant-block load carries its value as a comment
+            if val in markers:
+                marker_lines.setdefault(val, []).append(i)
         for ann in case["annotate"]:
             r = on[key].get(ann)
             rep.add("traces_validated")
@@ -292,8 +296,12 @@ def check_result(case, files, markers, on, off, viol, rep):
             else:
                 # marker attribution
                 for m, tls in marker_lines.items():
-                    f, line1 = markers[m]
-                    for tl in tls:
+                    # a constant written on several lines: its k-th load (in TEAL order) belongs to its k-th line
+                    locs = markers[m] if isinstance(markers[m], list) else [markers[m]] * len(tls)
+                    if len(locs) != len(tls):
+                        bad("constant %d is written %d times but loaded on %d TEAL lines" % (m, len(locs), len(tls)))
+                        break
+                    for tl, (f, line1) in zip(tls, locs):
                         e = ent[tl]
                         if os.path.basename(e[2] or "") != f or e[3] != line1 - 1:
                             bad("constant %d written on %s:%d is attributed to %s:%s" % (m, f, line1, os.path.basename(e[2] or ""), (e[3] + 1) if e[3] is not None else None),
@@ -389,6 +397,23 @@ def router_module(mod, cfg, marker_base):
     return "\n".join(L) + "\n", markers
 
 
+def population_module(mod, k, reps, marker_base, small=False):
+    """k distinct constants, each written on `reps` lines of its own (round robin): with assembleConstants they
+    are loaded through the constant block (intc_0..3, intc N, pushint for small ones); every load belongs to the
+    line that wrote it"""
+    L = ["import pyteal as pt", "", "", "def program():", "    return pt.Seq("]
+    markers = {}
+    vals = [(marker_base + i) if not (small and i % 2) else (i + 2) for i in range(k)]
+    for _r in range(reps):
+        for v in vals:
+            L.append("        pt.Pop(pt.Int(%d))," % v)
+            if v >= 1000:
+                markers.setdefault(v, []).append((mod + ".py", len(L)))
+    L.append("        pt.Int(1),")
+    L.append("    )")
+    return "\n".join(L) + "\n", markers
+
+
 def program_cases(tier):
     cases = []
     g = gen_ctrl.Grammar()
@@ -461,6 +486,22 @@ def run(tier):
                 meta[case["id"]] = (case, {mod + ".py": text}, markers)
             batches[k % jobs].append({"id": rid, "module": mod, "versions": [6, 8], "annotate": ann, "router": True})
         rep.bounds["routers"] = len(router_configs())
+        # constant populations: repeated constants through the constant assembler
+        npop = 0
+        for k, reps, small in ((5, 2, False), (6, 2, False), (7, 3, False), (9, 2, True), (6, 1, False)):
+            for ckw in ({"assembleConstants": True}, None, {"assembleConstants": True, "assembly_type_track": False}):
+                pid_ = 950000 + npop
+                mod = "gen_pop_%d" % npop
+                text, markers = population_module(mod, k, reps, 800000 + 100 * npop, small)
+                with open(os.path.join(scratch, mod + ".py"), "w") as fh:
+                    fh.write(text)
+                ann = ["off", "concise", "full", "headers"]
+                case = {"id": pid_, "module": mod, "versions": [6, 8], "annotate": ann, "size": k * reps, "leading_blank": 0,
+                        "population": [k, reps, small], "compile_kw": ckw}
+                meta[pid_] = (case, {mod + ".py": text}, markers)
+                batches[npop % jobs].append({"id": pid_, "module": mod, "versions": [6, 8], "annotate": ann, "compile_kw": ckw})
+                npop += 1
+        rep.bounds["constant_population_modules"] = npop
         procs = []
         for bi, batch in enumerate(batches):
             if not batch:
